@@ -10,6 +10,7 @@ import SkNet.Lemmas.TerminateLouvain
 import SkNet.Lemmas.ModularityFit
 import SkNet.Lemmas.KernelsHeap
 import SkNet.Lemmas.KernelsWL
+import SkNet.Lemmas.KernelsVote
 import SkNet.Lemmas.TerminateLouvainOuter
 import SkNet.Lemmas.TerminatePush
 import SkNet.Lemmas.TerminateHierarchy
@@ -306,5 +307,29 @@ example : Terminate.Chained 3 [[0, 0, 1], [0, 1], [0, 1], [0, 0]] ∧
     (Hier.getHierarchyLoop [[0, 0, 1], [0, 1], [0, 1], [0, 0]] ((List.range 4).map .leaf) [0, 1, 1, 2] [0, 1, 2]).isSome = true := by
   refine ⟨?_, by decide +kernel⟩
   refine ⟨rfl, by decide +kernel, by decide +kernel, by decide +kernel, trivial⟩
+
+/-! ## 6. `vote_update`: in bounds, including the scratch vectors and the `votes` buffer (the sites of defect F2) -/
+
+/-- **inbounds_vote.**  Checked model of the repaired `vote_update` (`SkNet/Model/KernelsVote.lean`).  On every
+    well-formed square CSR matrix (`Csr.WF`, what scipy guarantees), with one label per node (any integers; negative
+    = unlabelled) and an update index of nodes, no access leaves its array: `data` is read at the edge position,
+    the scratch vectors `labels_neigh`/`votes_neigh` are read below their common size, `votes` — `max(labels) + 1`
+    cells — is only indexed by labels that occur in `labels`, and a sweep never introduces a new label.  The
+    result is the result of the unchecked model of C13.  (For the pinned kernel the corresponding statement is
+    false: `SkNet.C13.pinned_vote_out_of_bounds`.) -/
+theorem inbounds_vote (c : Csr Rat) (hwf : c.WF = true) (hsq : c.nRow = c.nCol) (labels : List Int)
+    (hl : labels.length = c.nRow) (index : List Nat) (hidx : ∀ i ∈ index, i < c.nRow) :
+    KVote.voteUpdate? c labels index = .ok (Vote.voteUpdate c labels index) :=
+  KVote.voteUpdate?_ok (KVote.csrOK_of_wf c hwf hsq) labels hl index hidx
+
+/-- non-vacuity: the one-edge graph on 6 nodes (nnz = 2 < n, the input on which the pinned kernel read
+    `data[jj]` out of bounds), seeds 7 and 9 on the two end points (labels ≥ n = 6, on which the pinned
+    kernel wrote past `votes`), every node updated -/
+example :
+    let c : Csr Rat := { nRow := 6, nCol := 6, indptr := #[0, 1, 2, 2, 2, 2, 2], indices := #[1, 0], data := #[1, 1] }
+    c.WF = true ∧
+    KVote.voteUpdate? c [7, 9, -1, -1, -1, -1] [0, 1, 2, 3, 4, 5]
+      = .ok [9, 9, -1, -1, -1, -1] := by
+  refine ⟨by decide +kernel, by decide +kernel⟩
 
 end SkNet.C17
